@@ -2,7 +2,8 @@
 
 Regenerated on every run into coq/Gen/C19.v.  Serve/Proofs.v anchors the hand-written route matcher, key format,
 URL format and content-type table to them by `Example ..._anchor ... reflexivity`, so that an edit of the routes,
-of `_gen_cache_key`, of `_CONTENT_TYPES` or of the mount point breaks a proof obligation of Props/C19.v.
+of `_gen_cache_key`, of `_CONTENT_TYPES`, of the mount point or of the default media cache's configuration (cache.py: backend class,
+default timeout, max entries, cull frequency - as Django's BaseCache.__init__ actually READS the params) breaks a proof obligation of Props/C19.v.
 """
 import common as C
 from gen_constants import generator
@@ -40,4 +41,26 @@ def gen_C19():
     name = D.CACHE_ENDPOINT_NAME
     d("url_js_with_input", reverse(name, kwargs={"comp_cls_hash": "H", "script_type": "js", "input_hash": "I"}))
     d("url_css_without_input", reverse(name, kwargs={"comp_cls_hash": "H", "script_type": "css"}))
+    # the default media cache exactly as the code under test builds it (settings.COMPONENTS.cache unset): the model treats it
+    # as a dictionary that loses entries only through delete()/clear() - no expiry, no size-triggered culling
+    import django_components.cache as DC
+    from django_components.app_settings import app_settings
+    if app_settings.CACHE is not None:
+        raise RuntimeError("C19 generator: COMPONENTS.cache is set; the default media cache is what C19 is about")
+    saved = DC.component_media_cache
+    DC.component_media_cache = None
+    try:
+        mc = DC.get_component_media_cache()
+    finally:
+        DC.component_media_cache = saved
+    d("media_cache_class", type(mc).__module__ + "." + type(mc).__qualname__)
+    to = getattr(mc, "default_timeout", 300)
+    if to is not None and (not isinstance(to, int) or to < 0):
+        raise RuntimeError("C19 generator: unexpected default_timeout %r" % (to,))
+    out.append("Definition media_cache_timeout : option N := %s." % ("None" if to is None else "Some %d%%N" % to))
+    for name, attr in (("media_cache_max_entries", "_max_entries"), ("media_cache_cull_frequency", "_cull_frequency")):
+        v = getattr(mc, attr, None)
+        if not isinstance(v, int) or v < 0:
+            raise RuntimeError("C19 generator: media cache has no integer %s (%r)" % (attr, v))
+        out.append("Definition %s : N := %d%%N." % (name, v))
     return "\n".join(out) + "\n"
